@@ -236,7 +236,18 @@ func c02Cell(k *core.Case, ci int, exhaustive bool) {
 			break
 		}
 	}
-	p, err, pn := libProtect(m, ks, init)
+	var p []byte
+	var pn *core.Panic
+	if k.Index%5 == 3 {
+		// a genuine message whose checksum / ciphertext / IV begins or ends with 0x00 or 0xFF (searched)
+		if src := searchSpecial(k, m, raw, init, (k.Index/5)%nSpecial); src != nil {
+			mon.WithRand(src(), func() { p, err, pn = libProtect(m, ks, init) })
+			k.Count("genuine_with_searched_crypto_values", 1)
+		}
+	}
+	if p == nil && pn == nil && err == nil {
+		p, err, pn = libProtect(m, ks, init)
+	}
 	if pn != nil || err != nil {
 		k.Violate("protect-error", "cannot produce a genuine message", fmt.Sprint(err, pn), M{"msg": msgJSON(m)})
 		return
@@ -464,7 +475,7 @@ func c02(c *core.Ctx) {
 	c.Info("assumptions", "acceptance with HMAC-collision probability (<= 2^-96) is treated as never || spies wrap the exported interface-typed fields Encr_i/Encr_r/Integ_i/Integ_r")
 	c.Family("cells-exhaustive", c.N(36*6, 36*2000), func(k *core.Case) { c02Cell(k, k.Index%36, true) })
 	c.Family("cells-sampled", c.N(36*12, 36*6000), func(k *core.Case) { c02Cell(k, k.Index%36, false) })
-	req := []string{"tampered_presented_with_a_held_header_object", "transport_framings_tried", "rejected_insertion", "genuine_accepted", "exhaustive_bitflip_messages", "rejected_cross-key", "rejected_reflection", "handled_as_unprotected", "rejected_short-sk-body"}
+	req := []string{"genuine_with_searched_crypto_values", "tampered_presented_with_a_held_header_object", "transport_framings_tried", "rejected_insertion", "genuine_accepted", "exhaustive_bitflip_messages", "rejected_cross-key", "rejected_reflection", "handled_as_unprotected", "rejected_short-sk-body"}
 	for _, pc := range allPosClasses {
 		req = append(req, "pos_"+pc)
 	}
